@@ -80,8 +80,14 @@ def materialise(case):
         return _embedded.materialise_assembly(case)
     rng = gen.rng_for(case["seed"], PROP, case["i"])
     n = rng.choice([1, 2, 3]) if rng.random() < 0.1 else rng.randint(1, 40)
-    if rng.random() < 0.6:
+    r = rng.random()
+    if r < 0.55:
         seq = "".join(rng.sample(LETTERS, n))
+    elif r < 0.7:
+        # a periodic word (tandem repeat, homopolymer stuffer): rotating by its period maps the letters, not the annotation, onto themselves
+        unit = gen.rand_dna(rng, rng.randint(1, 4))
+        seq = (unit * (n // len(unit) + 1))[: max(len(unit) * max(1, n // len(unit)), len(unit))]
+        n = len(seq)
     else:
         seq = gen.rand_dna(rng, n)
     feats = []
@@ -97,7 +103,13 @@ def materialise(case):
     rec = {"id": "r%d" % case["i"], "name": "nm", "seq": seq, "features": feats, "letters": letters,
            "annotations": {"topology": "circular", "molecule_type": "DNA", "tags": ["x"]}, "dbxrefs": ["db:1"]}
     mode = rng.choice(["single", "additive", "identity", "inverse", "mixed"])
-    rk = lambda: rng.randint(-3 * n, 3 * n)
+    def rk():
+        r = rng.random()
+        if r < 0.08:
+            return rng.choice([-1, 1]) * (rng.randint(10 ** 3, 10 ** 9) * n + rng.randint(0, n))   # huge amounts
+        if r < 0.16:
+            return rng.choice([n, -n, n - 1, -(n - 1), n + 1, 2 * n, 0])                           # around the length
+        return rng.randint(-3 * n, 3 * n)
     if mode == "single":
         ops = [[">>", rk()]]
     elif mode == "additive":
